@@ -884,10 +884,38 @@ class HistogramBase(abc.ABC):
             for key in ("frequencies", "errors2"):
                 if kwargs[key] is not None:
                     kwargs[key] = np.asarray(kwargs[key], dtype=kwargs["dtype"]).reshape(shape)
-        kwargs.update(a_dict.get("meta_data", {}))
+        # The meta data travel as extra keyword arguments, except for those that would
+        # be taken for an argument of the constructor itself (see from_dict)
+        reserved = cls._constructor_argument_names()
+        kwargs.update(
+            {
+                key: value
+                for key, value in (a_dict.get("meta_data") or {}).items()
+                if key not in kwargs
+                and (key not in reserved or key in ("axis_names", "name", "title"))
+            }
+        )
         if len(kwargs["binnings"]) > 2:
             kwargs["dimension"] = len(kwargs["binnings"])
         return kwargs
+
+    @classmethod
+    def _constructor_argument_names(cls) -> set:
+        """Names of all explicit arguments of the constructors in the class hierarchy."""
+        import inspect
+
+        names = set()
+        for klass in cls.__mro__:
+            init = klass.__dict__.get("__init__")
+            if init is not None:
+                names.update(
+                    name
+                    for name, parameter in inspect.signature(init).parameters.items()
+                    if parameter.kind
+                    in (parameter.POSITIONAL_OR_KEYWORD, parameter.KEYWORD_ONLY)
+                )
+        names.discard("self")
+        return names
 
     @classmethod
     def from_dict(cls, a_dict: Mapping[str, Any]) -> Self:
@@ -897,7 +925,13 @@ class HistogramBase(abc.ABC):
         template method, not this one.
         """
         kwargs = cls._kwargs_from_dict(a_dict)
-        return cls(**kwargs)
+        histogram = cls(**kwargs)
+        # Entries of the meta data that share their name with a constructor argument
+        # (dtype, missed, stats, ...) were kept out of the call, put them back
+        for key, value in (a_dict.get("meta_data") or {}).items():
+            if key not in histogram._meta_data and key not in ("axis_names", "name", "title"):
+                histogram._meta_data[key] = value
+        return histogram
 
     def to_json(self, path: Optional[str] = None, **kwargs) -> str:
         """Convert to JSON representation.
